@@ -14,6 +14,7 @@ PARENT = Ptr('arg:parent', ())
 C = Ptr('arg:c', ())
 NW = Ptr('arg:nw', ())
 W = Ptr('arg:w', ())
+DL_S, DL_NS = Ptr('tok:dl_s', ()), Ptr('tok:dl_ns', ())      # the caller's abs_deadline of the cancellable wait, as opaque tokens
 DELTA = Ptr('tok:delta', ())          # the delta argument of nsync_counter_add as an opaque integer token
 
 def table(mod, gname):
@@ -58,11 +59,15 @@ def analyse(ctx):
     for role, fn in zip(('ready_time', 'enqueue', 'dequeue'), ct):
         add('counter %s (%s)' % (role, fn), fn, [C, NW], [C, NW])
     NOTE = Ptr('arg:cancel_note', ())
-    add('nsync_sem_wait_with_cancel_', 'nsync_sem_wait_with_cancel_', [W, TOP, TOP, NOTE], [W, NOTE])
+    add('nsync_sem_wait_with_cancel_', 'nsync_sem_wait_with_cancel_', [W, DL_S, DL_NS, NOTE], [W, NOTE])
     runs = []
     for label, fn, args, nn, ghost in E:
         eng.track_writes = label.startswith(('nsync_note_new', 'nsync_counter_new'))
-        eng.value_token_fields = ('nsync_counter_s_.value',) if label == 'nsync_counter_add' else ()      # C19.R3 (constructors only: keeps other state spaces unchanged)
+        eng.value_token_fields = ('nsync_counter_s_.value',) if label == 'nsync_counter_add' else ()
+        eng.timed_p_outcomes = (0, ctx.probe['ETIMEDOUT']) if label == 'nsync_sem_wait_with_cancel_' else ()
+        # inside the cancellable wait the notifier (reached through the lazy expiry and through the explicit notify on expiry) is a callee that
+        # takes and releases the note's mutex; its body is judged by its own entries (nsync_note_notify, nsync_note_is_notified)
+        eng.entry_opaque = ('nsync_note_notify', 'nsync_note_notified_deadline_') if label == 'nsync_sem_wait_with_cancel_' else ()      # C19.R3 (constructors only: keeps other state spaces unchanged)
         exits = eng.run(fn, args, nn=nn, ghost=ghost, label=label)
         runs.append((label, fn, exits))
     _CACHE[key] = (eng, runs)
